@@ -42,6 +42,11 @@ fn watchdog(secs: u64, property: String) {
 /// Replay the committed regression corpus of a property. Returns false if
 /// one of them fails in a way no listed known finding explains.
 fn replay_committed(pc: &PropCtx, prop: &props::Prop) {
+    // Development aid only (never set by ./check): lets one see whether the generators alone find a change.
+    if std::env::var_os("VERIF_SKIP_REPLAYS").is_some() {
+        pc.note("VERIF_SKIP_REPLAYS set: committed replays NOT executed".to_string());
+        return;
+    }
     let dir = Path::new(&verif_root()).join("replays").join(prop.id);
     let Ok(rd) = std::fs::read_dir(&dir) else { return };
     let mut files: Vec<_> = rd.filter_map(|e| e.ok()).map(|e| e.path()).filter(|p| p.extension().map_or(false, |x| x == "json")).collect();
